@@ -198,13 +198,15 @@ Definition erasing (apply : bool) (minc maxc H W : Z) (cands : list (Z * Z)) (ds
 (* ------------------------------------------------------------------ *)
 (* KDSpecAugment._mask_along_axis                                       *)
 (* ------------------------------------------------------------------ *)
-Definition qz_trunc (q : qz) : Z := Z.quot (fst q) (snd q).      (* tensor.long() truncates toward zero *)
+(* tensor.long() truncates toward zero *)
+Definition q_trunc (q : Q) : Z := Z.quot (Qnum q) (Zpos (Qden q)).
 
-(* value = float32(u1 * P), minv = float32(u2 * (size - value)) as exact fractions *)
-Definition mask_axis (P : Z) (value minv : qz) : res (option (Z * Z)) :=
+(* value = float32(u1 * P), minv = float32(u2 * float32(size - value)): oracle values, given as the exact
+   rationals the float32 results denote *)
+Definition mask_axis (P : Z) (value minv : Q) : res (option (Z * Z)) :=
   if P <? 1 then Ok None else
-  let s := qz_trunc minv in
-  let e := s + qz_trunc value in
+  let s := q_trunc minv in
+  let e := s + q_trunc value in
   if e - s <? P then Ok (Some (s, e)) else Reject 3.
 
 Definition masked (size : Z) (m : option (Z * Z)) (k : Z) : bool :=
@@ -213,8 +215,8 @@ Definition masked (size : Z) (m : option (Z * Z)) (k : Z) : bool :=
   | None => false
   end.
 
-Definition spec_augment (tm fm : option Z) (vals : list (qz * qz)) : res (option (Z * Z) * option (Z * Z)) :=
-  let one := fun (pm : option Z) (vals : list (qz * qz)) =>
+Definition spec_augment (tm fm : option Z) (vals : list (Q * Q)) : res (option (Z * Z) * option (Z * Z)) :=
+  let one := fun (pm : option Z) (vals : list (Q * Q)) =>
     match pm with
     | None => Ok (None, vals)
     | Some P => if P <? 1 then Ok (None, vals) else
@@ -312,9 +314,12 @@ Fixpoint semseg_run (ops : list sop) (x seg : gimg) (ds : list draw) : res (list
 
 (* KDSemsegOverlappedMultiCrop (overlap 0.5): the crop windows *)
 Definition multicrop_windows (ch cw H W : Z) : res (list rect) :=
-  if negb ((H mod ch =? 0) && (W mod cw =? 0)) then Reject 3 else
+  if negb ((ch mod 2 =? 0) && (cw mod 2 =? 0)) then Reject 3 else      (* __init__: crop_size * 0.5 is an integer *)
+  if ch =? 0 then Reject 4 else                                        (* height % crop_height *)
+  if negb (H mod ch =? 0) then Reject 3 else
+  if cw =? 0 then Reject 4 else
+  if negb (W mod cw =? 0) then Reject 3 else
   let oh := ch / 2 in let ow := cw / 2 in
-  if (oh =? 0) || (ow =? 0) then Reject 4 else
   let rows := 1 + (H - ch) / oh in
   let cols := 1 + (W - cw) / ow in
   Ok (flat_map (fun i => map (fun j => (Z.of_nat i * oh, Z.of_nat j * ow, ch, cw)) (seq 0 (Z.to_nat cols)))
